@@ -37,6 +37,7 @@ def oracle_c14(sc, res):
     ops = sc.get("ops") or []
     status = "uninitialized"
     last_seq_status = None
+    stop_call_seq = None
     stop_returned = None      # seq of the op-ret of the first stop() that found the interpreter stoppable
     stopped_inside = None
     pending_calls = {}
@@ -52,6 +53,7 @@ def oracle_c14(sc, res):
             generation += 1
             status = r[7] if r[6] == "ok" else status
             stop_returned = None
+            stop_call_seq = None
             stopped_inside = None
             continue
         if k == "op-call":
@@ -75,9 +77,12 @@ def oracle_c14(sc, res):
                                           f"stop() raised {out[1]}: {out[3]}"))
                 elif stop_returned is None and call is not None and call[8] not in ("uninitialized",):
                     stop_returned = r[SEQ]
+                    if stop_call_seq is None:
+                        stop_call_seq = call[SEQ]   # the FIRST stop() of this generation that found something to stop
                     stop_time = r[T]
                     generation_of_stop = generation
-                if r[7] not in ("stopped", "uninitialized"):
+                if r[7] not in ("stopped", "uninitialized") and not (call is not None and call[8] == "uninitialized"):
+                    # (a stop() that found the interpreter not yet started is a no-op; a start() racing it legitimately runs)
                     vios.append(Violation("C14", "status-after-stop", {"engine": eng, "status": r[7]}, f"after stop() status is {r[7]}"))
             elif r[5] == "start" and call is not None:
                 if call[8] == "stopped":
@@ -101,8 +106,15 @@ def oracle_c14(sc, res):
             st = r[6]["status"]
             zombies = [i_ for i_ in (r[6].get("interps") or ()) if i_[1] == "running" and i_[2] is not None]
             if stop_returned is not None and r[SEQ] > stop_returned and zombies and status == "stopped" and generation_of_stop == generation:
+                # did every survivor begin its start() only after this stop() had been called (its actor thread racing stop())?
+                last_start = {}
+                for x in res.trace:
+                    if x[K] == "i-start":
+                        last_start[x[4]] = x[SEQ]
+                raced = all(last_start.get(z_[0], -1) > (stop_call_seq or 0) for z_ in zombies)
                 vios.append(Violation("C14", "alive-after-stop", {"engine": eng, "preempted": preempted,
-                                                                  "stop_from_action": stopped_inside is not None, "what": "interpreter"},
+                                                                  "stop_from_action": stopped_inside is not None, "what": "interpreter",
+                                                                  "child_start_raced_stop": raced},
                                       f"after stop() returned: descendant interpreters still running {zombies[:3]} (observation {r[4]})"))
                 stop_returned = None
             census_now = r[6]["census"] or ()
